@@ -90,6 +90,8 @@ structure DataPageOk (L : Libs) (verify : Bool) (mode : Mode) (c : Col) (dict : 
   crc : crcBad verify p.hdr.crc p.comp = false
   decode : ∃ body, pageData L c.cm.codec p.comp p.hdr.uncompressed.toNat = .ok body ∧
     readDataPageV1 Fixes.all c dict body d.defs.length p.hdr.word4 = .ok d
+  /-- a page without rows (F63: the loaders do not decode it) stands for nothing -/
+  empty : d.defs.length = 0 → d = ⟨[], [], []⟩
 
 /-- a dictionary page the reader loads as `D` -/
 structure DictPageOk (L : Libs) (verify : Bool) (mode : Mode) (c : Col) (p : RPage) (D : Dict) : Prop where
